@@ -17,14 +17,24 @@ pub struct Instant(std::time::Instant);
 #[cfg(not(target_arch = "wasm32"))]
 #[allow(dead_code)]
 impl Instant {
+    #[cfg(not(biscuit_auth_verif))]
     pub fn now() -> Self {
         Self(std::time::Instant::now())
+    }
+    #[cfg(biscuit_auth_verif)]
+    pub fn now() -> Self {
+        Self(crate::verif::now())
     }
     pub fn duration_since(&self, earlier: Instant) -> Duration {
         self.0.duration_since(earlier.0)
     }
+    #[cfg(not(biscuit_auth_verif))]
     pub fn elapsed(&self) -> Duration {
         self.0.elapsed()
+    }
+    #[cfg(biscuit_auth_verif)]
+    pub fn elapsed(&self) -> Duration {
+        Self::now().duration_since(*self)
     }
     pub fn checked_add(&self, duration: Duration) -> Option<Self> {
         self.0.checked_add(duration).map(Self)
